@@ -188,6 +188,7 @@ type vfIdP struct {
 	Plan         func(c *vfIdpCall) vfIdpFault
 	Mint         func(m *vfMintCtx)
 	Userinfo     func(c *vfIdpCall, claims map[string]interface{})
+	UserinfoPost func(c *vfIdpCall, claims map[string]interface{}) // flavour of the profile document (runs after Userinfo)
 	Latency      func(c *vfIdpCall) time.Duration
 }
 
@@ -825,6 +826,9 @@ func (p *vfIdP) userinfo(rw http.ResponseWriter, call *vfIdpCall) {
 	}
 	if p.Userinfo != nil {
 		p.Userinfo(call, c)
+	}
+	if p.UserinfoPost != nil {
+		p.UserinfoPost(call, c)
 	}
 	call.Outcome = "200"
 	p.writeJSON(rw, 200, c)
